@@ -141,6 +141,13 @@ func Compile(mods map[string]string, o Options) (res Result) {
 			fc = compile.MultiFeatureCheckers(compile.FeaturesFromNames(false, o.FeatureUniverse...), compile.FeaturesFromNames(true, o.Features...))
 		case "with-nil-members":
 			fc = compile.MultiFeatureCheckers(nil, compile.FeaturesFromNames(true, o.Features...), nil)
+		case "composite-after-derivation":
+			// a history on one checker object: a composite is built, a second checker that disables
+			// everything is derived from it (and thrown away), and the compile gets the first one
+			base := compile.MultiFeatureCheckers(compile.FeaturesFromNames(true, o.Features...), compile.FeaturesFromNames(false, off...))
+			_ = compile.MultiFeatureCheckers(base, compile.FeaturesFromNames(false, o.FeatureUniverse...), compile.FeaturesFromNames(false, o.Features...))
+			_ = compile.MultiFeatureCheckers(base, nil)
+			fc = base
 		case "enable-disable-enable":
 			fc = compile.MultiFeatureCheckers(compile.FeaturesFromNames(true, o.Features...), compile.FeaturesFromNames(false, o.FeatureUniverse...), compile.FeaturesFromNames(true, o.Features...))
 		}
